@@ -77,7 +77,8 @@ def strip_generics(path):
 
 
 def is_refish(ty):
-    return '&' in ty or "'_" in ty or '*const' in ty or '*mut' in ty
+    # closures may capture references: a closure value is a potential carrier of borrows
+    return '&' in ty or "'_" in ty or '*const' in ty or '*mut' in ty or 'closure@' in ty
 
 
 def is_mutref(ty):
